@@ -27,7 +27,7 @@ use rustc_middle::mir::{
     AggregateKind, BasicBlock, Body, Const, ConstOperand, Operand, Place, PlaceElem, Rvalue,
     StatementKind, TerminatorKind, UnwindAction,
 };
-use rustc_middle::ty::print::{with_crate_prefix, with_no_trimmed_paths};
+use rustc_middle::ty::print::{with_crate_prefix, with_no_trimmed_paths, with_no_visible_paths};
 use rustc_middle::ty::{self, GenericArgsRef, Instance, Ty, TyCtxt, TypingEnv};
 use rustc_span::Span;
 use std::sync::{Mutex, OnceLock};
@@ -96,17 +96,17 @@ impl<'tcx> Cx<'tcx> {
         }
     }
     fn path(&self, did: DefId) -> String {
-        let s = with_crate_prefix!(with_no_trimmed_paths!(self.tcx.def_path_str(did)));
+        let s = with_crate_prefix!(with_no_visible_paths!(with_no_trimmed_paths!(self.tcx.def_path_str(did))));
         self.fix(s)
     }
     fn path_args(&self, did: DefId, args: GenericArgsRef<'tcx>) -> String {
-        let s = with_crate_prefix!(with_no_trimmed_paths!(self
+        let s = with_crate_prefix!(with_no_visible_paths!(with_no_trimmed_paths!(self
             .tcx
-            .def_path_str_with_args(did, args)));
+            .def_path_str_with_args(did, args))));
         self.fix(s)
     }
     fn ty(&self, t: Ty<'tcx>) -> String {
-        let s = with_crate_prefix!(with_no_trimmed_paths!(format!("{}", t)));
+        let s = with_crate_prefix!(with_no_visible_paths!(with_no_trimmed_paths!(format!("{}", t))));
         self.fix(s)
     }
     fn span_line(&self, sp: Span) -> (String, usize) {
@@ -505,14 +505,14 @@ fn const_j<'tcx>(cx: &Cx<'tcx>, typing_env: TypingEnv<'tcx>, c: &ConstOperand<'t
             fn_ref_j(cx, typing_env, *did, args, &mut o);
         }
         _ => {
-            let disp = with_crate_prefix!(with_no_trimmed_paths!(format!("{}", c.const_)));
+            let disp = with_crate_prefix!(with_no_visible_paths!(with_no_trimmed_paths!(format!("{}", c.const_))));
             o.push(("v", J::s(cx.fix(disp))));
             match c.const_ {
                 Const::Unevaluated(uv, _) => {
                     o.push(("uneval", J::s(cx.path(uv.def))));
                     if let Ok(val) = c.const_.eval(tcx, typing_env, c.span) {
                         let ev = Const::Val(val, ty);
-                        let d = with_crate_prefix!(with_no_trimmed_paths!(format!("{}", ev)));
+                        let d = with_crate_prefix!(with_no_visible_paths!(with_no_trimmed_paths!(format!("{}", ev))));
                         o.push(("ev", J::s(cx.fix(d))));
                     }
                 }
